@@ -1,7 +1,9 @@
 """C03 - responses are linear in the sources: superposition over sources and signal kinds.
 
   translate  lcapy/mnacpts.py `_stamp` methods -> Gen/StampsGen.v (tools/tr_stamps.py, shared with C01)
-             lcapy/superposition.py kinds/select/transient/time/laplace/netval, lcapy/netlist.py _analysis_groups
+             lcapy/superposition.py kinds/select/transient/time/laplace/netval, lcapy/netlist.py _analysis_groups,
+             _subcircuits_make, select, get_I, _get_Vd, lcapy/netlistmixin.py independent_source_groups,
+             lcapy/subnetlist.py SubNetlist.__new__, lcapy/mnacpts.py V._select / I._select
              -> Gen/SuperposGen.v (tools/tr_superpos.py, fail-closed statement templates)
   prove      props/C03a-d.v   per stamp-defining class (src_affine_<Class>): the matrix part does not depend on the
                               independent-source / initial-condition parameters (par pIsc, par pVoc), the right-hand
@@ -13,6 +15,11 @@
                               source group zeroed sum to the whole, any grouping)
              props/C03sup.v   the regenerated signal-kind tables equal the hand model: gen_kinds_sound, gen_view_sound,
                               gen_transient_sound, gen_agroup_sound, agroups_spec_gen, analysis_groups_cover_gen
+             props/C03grp.v   netlist level of the grouping (NetlistMixin.independent_source_groups, Netlist._subcircuits_make,
+                              SubNetlist.__new__, Netlist.select, V/I._select, get_I/_get_Vd regenerated): regroup_cover (every term
+                              lands in exactly one group of any duplicate-free covering key list), isg_keys_nodup/_cover,
+                              isg_member_spec, net_groups_partition, subcircuits_partition (for every source the values it carries
+                              in the sub-netlists add up to its value, every mode), gen_grouping_sound, gen_akeys_sound
              theory/LinearSys.v       generic linear-system facts (uniqueness => linear response)
              theory/SuperposModel.v   hand model of lcapy.Superposition (add, decompose, dc/ac/transient parts,
                               kinds, select, time()/laplace()) and of the noise rules: decompose_reassemble,
@@ -54,8 +61,15 @@ MANIFEST = {
             'Netlist._analysis_groups) are regenerated from lcapy/superposition.py and lcapy/netlist.py by a fail-closed translator and '
             'proved equal to the model (gen_kinds_sound, gen_view_sound, gen_transient_sound, gen_agroup_sound), so the ivp / time-domain '
             'shortcuts provably use the same total as the per-kind analyses (analysis_groups_cover_gen). '
+            'The grouping of the sources of a NETLIST into sub-netlists (independent_source_groups, _subcircuits_make, SubNetlist.__new__, '
+            'Netlist.select, V._select/I._select, get_I/_get_Vd) is regenerated too and modelled as an insertion-ordered dictionary kind -> names: '
+            'it has one entry per kind, lists a source under exactly the kinds it has a part of (isg_keys_nodup, isg_keys_cover, isg_member_spec), '
+            'every term lands in exactly one group of any duplicate-free covering key list (regroup_cover), and for every source the values it carries '
+            'in the sub-netlists (one per key, every source selected for that key, 0 when it has no such part) add up to its value in every mode '
+            '(net_groups_partition, subcircuits_partition with the regenerated key function; gen_grouping_sound, gen_akeys_sound). '
             'Both models are tied to the real code on every run by evaluation inside Coq on generated circuits (all analysis kinds incl. '
-            'phasor and noise kinds over Gaussian rationals, mutual inductance with initial currents, dc kinds with capacitors at eps = 0) and containers.',
+            'phasor and noise kinds over Gaussian rationals, mutual inductance with initial currents, dc kinds with capacitors at eps = 0), containers, '
+            'and per circuit the dictionary of independent_source_groups(True) and the keys of Netlist.sub (check_isg, check_subkeys).',
     'note': 'Trusted: Coq kernel/vm_compute; tools/tr_stamps.py, tools/tr_superpos.py; hand models coq/props/C01model.v (assembly), C03defs.v/C03model.v, '
             'coq/theory/MNA.v (unknown ordering, reporting), SuperposModel.v (container) validated by correspondence; sympy linear '
             'solve, inverse Laplace, term classification (coeff(t,0)/is_ac) and node merging of killed sources are oracles whose '
@@ -1045,8 +1059,11 @@ def parse_z_list(out):
     return [int(x.strip()) for x in body.split(';')] if body else []
 
 
+EXTRA_IMPORT = ['']
+
+
 def cases_file(items):
-    lines = [HEADER]
+    lines = [HEADER + EXTRA_IMPORT[0]]
     seen = set()
     for gi, defn, expr in items:
         if defn and defn not in seen:
@@ -1477,15 +1494,19 @@ def run(tier='quick', replay=None):
         log('start impl on %d cases' % len(cases))
         th.start()
         model_ok = False
+        grp_ok = False
         sup_results = {}
         if trs is not None:
             w.write('SuperposGen.v', texts['SuperposGen.v'])
-            texts['C03sup.v'] = open(os.path.join(core.VERIF, 'coq', 'props', 'C03sup.v')).read()
-            w.write('C03sup.v', texts['C03sup.v'])
+            for f in ('C03sup.v', 'C03grp.v'):
+                texts[f] = open(os.path.join(core.VERIF, 'coq', 'props', f)).read()
+                w.write(f, texts[f])
             r_ = core.coqc_many(w.dir, ['SuperposGen.v'], timeout=300)
             sup_results.update(r_)
             if r_['SuperposGen.v'][0]:
-                sup_results.update(core.coqc_many(w.dir, ['C03sup.v'], timeout=300))
+                r_ = core.coqc_many(w.dir, ['C03sup.v', 'C03grp.v'], timeout=600)
+                sup_results.update(r_)
+                grp_ok = r_['C03grp.v'][0]
             else:
                 res.failed_obl.append(('gen_agroup_sound', 'C03sup.v', 'not checked: Gen.SuperposGen does not compile'))
                 res.obligations += 1
@@ -1535,6 +1556,7 @@ def run(tier='quick', replay=None):
             names = core.obligations_in(open(os.path.join(core.COQ_THEORY, f)).read())
             res.obligations += len(names)
             res.discharged += len(names)
+        EXTRA_IMPORT[0] = 'Require Import Gen.SuperposGen Gen.C03grp.\n' if grp_ok else ''
         log('props done; waiting for impl')
         th.join()
         wres = wres_box['r']
@@ -1573,6 +1595,8 @@ def run(tier='quick', replay=None):
                         for name, dump in wr['api'].get(cat, {}).items():
                             chk += container_checks('%d/%s_%s' % (ci, cat, name), dump, wmap, nmap, res)
                             chk += accumulation_checks(ci, cat, name, dump, wr, wmap, nmap, res)
+                    if grp_ok:
+                        chk += grouping_checks(ci, case, wr, wmap, nmap, res)
             elif ty == 'container':
                 res.add_case(json.dumps([case['terms'], case['groups']], sort_keys=True), True,
                              {'terms': case['terms'], 'groups': case['groups']} if len(res.samples) < 5 and ci % 7 == 0 else None)
@@ -1689,7 +1713,7 @@ def explained(label, oracle_keys):
     last = label.split('/')[-1]
     if '/kill_' in label or 'group_' in last or 'full_solution' in last:
         pre = ('kill_except:', 'superposition:', 'scaling')
-    elif last.startswith(('dec_', 'ac_', 'dc', 'kinds', 'transient', 'time', 'laplace', 'select_', 'agroups')):
+    elif last.startswith(('dec_', 'ac_', 'dc', 'kinds', 'transient', 'time', 'laplace', 'select_', 'agroups', 'isg', 'subkeys')):
         pre = ('decompose:', '__add__:', 'reassembly:', 'container:', 'source-value:', 'select:', 'groups:')
     elif last.startswith(('noise', 'accumulate_n')):
         pre = ('noise:',)
@@ -1766,6 +1790,68 @@ def select_checks(ci, sname, dump, wr, wmap, nmap, res):
             elif gk.startswith('n'):
                 impl.append('(AgKind (GN %d))' % nidnum(nmap, gk))
         out.append(('%d/src_%s/agroups' % (ci, sname), defn, 'check_agroups %s %s [%s]' % (mode, name, '; '.join(impl))))
+    return out
+
+
+def group_lit(gk, wmap, nmap):
+    if gk == 'dc':
+        return 'GDC'
+    if gk == 'transient':
+        return 'GTR'
+    if gk.startswith('w:') and '?' not in gk:
+        return '(GAC %d)' % wid(wmap, gk[2:])
+    if gk.startswith('n'):
+        return '(GN %d)' % nidnum(nmap, gk)
+    return None
+
+
+def grouping_checks(ci, case, wr, wmap, nmap, res):
+    """netlist level (Gen.C03grp): NetlistMixin.independent_source_groups(True) of the circuit against the model
+    dictionary [isg] built from the stored source values, in netlist order; the keys of Netlist.sub against the
+    regenerated key function gen_akeys applied to the keys of independent_source_groups(True)"""
+    out = []
+    gtr, sup = wr.get('groups_tr'), wr.get('source_sup', {})
+    if gtr is None or not sup:
+        return out
+    order = [l.split()[0] for l in case['netlist']]
+    names = sorted(sup, key=lambda n: order.index(n) if n in order else len(order))
+    if any(n not in order for n in names) or any('?' in k for k in list(gtr) + list(wr['kinds'])):
+        res.count('grouping_not_compared')
+        return out
+    num = {n: i + 1 for i, n in enumerate(names)}
+    defs, srcs = [], []
+    for n in names:
+        dump = sup[n]
+        tp = terms_of_parts(dump['parts'], wmap, nmap) if 'error' not in dump and 'parts' in dump else None
+        if tp is None:
+            res.count('grouping_not_compared')
+            return out
+        nm = 'gs_' + re.sub(r'[^A-Za-z0-9]', '_', '%d_%s' % (ci, n))
+        defs.append('Definition %s : sig QcIF := [%s].' % (nm, '; '.join(tp[0])))
+        srcs.append('(%d%%nat, %s)' % (num[n], nm))
+    impl, keys = [], []
+    for gk, members in gtr.items():
+        gl = group_lit(gk, wmap, nmap)
+        if gl is None or any(m_ not in num for m_ in members):
+            res.count('grouping_not_compared')
+            return out
+        keys.append(gl)
+        impl.append('(%s, [%s])' % (gl, '; '.join('%d%%nat' % num[m_] for m_ in members)))
+    defn = '\n'.join(defs)
+    out.append(('%d/net/isg' % ci, defn, 'check_isg [%s] [%s]' % ('; '.join(srcs), '; '.join(impl))))
+    mode = 'AIvp' if wr.get('is_ivp') else ('ATime' if wr.get('is_time_domain') else 'AGeneral')
+    subk = []
+    for k_ in wr['kinds']:
+        a = 'AgIvp' if k_ == 'ivp' else 'AgTime' if k_ == 'time' else None
+        if a is None:
+            gl = group_lit(k_, wmap, nmap)
+            if gl is None:
+                res.count('grouping_not_compared')
+                return out
+            a = '(AgKind %s)' % gl
+        subk.append(a)
+    strict = not any(re.match(r'^n\d+$', k_) for k_ in list(gtr) + list(wr['kinds']))
+    out.append(('%d/net/subkeys' % ci, defn, 'check_subkeys %s %s [%s] [%s]' % (mode, 'true' if strict else 'false', '; '.join(keys), '; '.join(subk))))
     return out
 
 
